@@ -132,3 +132,33 @@ def diff_path(a, b, version, depth=0):
                 sub = diff_path(x, y, version, depth + 1)
                 return p + ('.' + sub if sub else '')
     return ''
+
+
+def diff_paths(a, b, version, depth=0, limit=6, is_defined=None):
+    """All dotted sub-field paths in which two codec values differ (up to `limit`); [''] when no finer
+    position can be named."""
+    out = []
+    if depth > 4:
+        return ['']
+    if isinstance(a, (list, tuple)) and isinstance(b, (list, tuple)) and len(a) == len(b):
+        for x, y in zip(a, b):
+            if not same(x, y, version):
+                for s_ in diff_paths(x, y, version, depth + 1, limit, is_defined):
+                    if s_ not in out:
+                        out.append(s_)
+        return out[:limit]
+    if isinstance(a, primitives.Base) and type(a) is type(b):
+        for p in codec.init_params(type(a)):
+            if is_defined is not None and depth >= 0 and not is_defined(a, p, version):
+                continue        # this sub-field is not encoded under this version at all
+            try:
+                x, y = getattr(a, p), getattr(b, p)
+            except Exception:
+                continue
+            if not same(x, y, version):
+                for s_ in diff_paths(x, y, version, depth + 1, limit, is_defined):
+                    full = p + ('.' + s_ if s_ else '')
+                    if full not in out:
+                        out.append(full)
+        return out[:limit]
+    return ['']
